@@ -314,6 +314,10 @@ def tryConsume (l : Limits) (bytes : Nat) (inMemory : Bool) : Limits × Bool :=
         | none => (l2, false)
         | some f' => ({ l2 with field := some f' }, true)
 
+/-- an arbitrary caller of the public `try_consume_limits` (it may go on after an `Err`) -/
+def runOps (l : Limits) (ops : List (Nat × Bool)) : Limits :=
+  ops.foldl (fun l op => (tryConsume l op.1 op.2).1) l
+
 /-- the `while let Some(chunk) = field.try_next().await?` loops of `Bytes::read_field`
 (`in_memory = true`), `TempFile::read_field` and `discard_field` (`false`): chunk lengths in,
 limits out, `false` = `Overflow` -/
